@@ -58,6 +58,9 @@ def run(rep, tier, seed):
             # between two calls the application itself changes the terminal (raw mode for a full-screen child, echo off
             # for a password prompt, ...): every call must give back what IT found
             cs["tmods"] = [rng.choice(["", "raw", "noecho", "", "raw"]) for _ in range(4)]
+        if ci % 5 == 2 and W >= 40:
+            # the application shows a right-side prompt: it is printed once more when the line is accepted
+            cs["rprompt"] = ["[12:00]", "R", "<< right side"][ci % 3]
         sugg = rng.random() < 0.2
         if sugg:
             # a long history line whose autosuggestion wraps below the typed text
